@@ -44,4 +44,47 @@ def raWrapG (ra : α) : α :=
 
 end ordered
 
+/-! ### the flag data-flow re-assembled from the regenerated pieces
+
+`Gen.C03.flagX` are the constants of flags.py; `estimateIsFlagG`, `summitFlagG`, `fitIsFlagG`,
+`componentFlagsG`, `refitMarkG`, `errMaskG` are the statements that touch a flag word, cut out of the
+current source.  The glue below is fixed and hand-written: it only says in which order the pieces
+are applied and how a Python truth value / `None` is passed (booleans as 0/1; `max_summits is None`
+means no component is "maxxed"). -/
+
+def b2n (b : Bool) : Nat := if b then 1 else 0
+
+def estimateIsFlagGl (nonNanPix minShape : Nat) : Nat :=
+  Gen.C03.estimateIsFlagG nonNanPix minShape Gen.C03.flagFIXED2PSF Gen.C03.flagFITERRSMALL
+
+def summitFlagGl (isFlag : Nat) (maxSummits : Option Nat) (j : Nat) : Nat :=
+  match maxSummits with
+  | none => isFlag
+  | some m => Gen.C03.summitFlagG isFlag j m Gen.C03.flagNOTFIT Gen.C03.flagFIXED2PSF
+
+def fitIsFlagGl (nonBlankPix freeVars : Nat) (errorbars success : Bool) : Nat :=
+  Gen.C03.fitIsFlagG nonBlankPix freeVars (b2n errorbars) (b2n success) Gen.C03.flagNOTFIT Gen.C03.flagFITERR
+
+def componentFlagsGl (isFlag modelFlag : Nat) (wcsFinite : Bool) : Nat :=
+  Gen.C03.componentFlagsG isFlag modelFlag (b2n wcsFinite) Gen.C03.flagWCSERR
+
+/-- one island in blind mode, end to end, from the regenerated pieces -/
+def blindIslandFlagsG (nonNanPix minShape : Nat) (maxSummits : Option Nat) (ncomp : Nat)
+    (errorbars success : Bool) (wcs : List Bool) : List Nat :=
+  let isf := estimateIsFlagGl nonNanPix minShape
+  let maxxed := fun (j : Nat) => match maxSummits with
+    | none => false
+    | some m => decide (m ≤ j)
+  let free := (List.range ncomp).foldl (fun acc j => acc + freeVars1 (summitFlagGl isf maxSummits j) (maxxed j)) 0
+  (List.range ncomp).map (fun j =>
+    componentFlagsGl (fitIsFlagGl nonNanPix free errorbars success) (summitFlagGl isf maxSummits j) (wcs.getD j true))
+
+/-- a refitted row, from the regenerated pieces -/
+def refitFlagsG (inputFlags : Nat) (notFit wcsFinite : Bool) (stage : Nat) : Nat :=
+  Gen.C03.refitMarkG (componentFlagsGl inputFlags (if notFit then Gen.C03.flagNOTFIT else 0) wcsFinite) stage
+    Gen.C03.flagPRIORIZED Gen.C03.flagFIXED2PSF
+
+/-- `if source.flags & (NOTFIT | FITERR)` of `fitting.errors` -/
+def notFitMaskG : Nat := Gen.C03.errMaskG Gen.C03.flagNOTFIT Gen.C03.flagFITERR
+
 end Aegean.Model.C03
